@@ -232,6 +232,7 @@ type remote struct {
 	goneBefore         bool     // the peer had already exited before the transition being judged
 	gated              bool     // the peer's main loop parks before every select and takes the arm the harness names
 	gate               chan int
+	draining           bool // just ungated: ready arms are taken in source order until none is left
 	gateReply          chan bool
 	sentWhileGated     map[string]bool // requests sent while the peer was gated (it reads them at some later point of its own choosing)
 	crossedUp          []rc.Msg // cancelled requests whose Piece storrent had already committed to its writer
@@ -616,13 +617,38 @@ func (w *World) selHook(id string, hasDefault bool, cases []vsel.Case) (int, boo
 	w.gateMu.Lock()
 	r := w.byEvent[cp]
 	gated := r != nil && r.gated
+	draining := r != nil && r.draining
 	w.gateMu.Unlock()
+	if draining {
+		// after ungate: whatever has become ready meanwhile is taken in source
+		// order (deterministic), then the peer returns to its ordinary select
+		for arm := 0; arm < len(cases); arm++ {
+			if vsel.Take(cases, arm) {
+				return arm, true
+			}
+		}
+		w.gateMu.Lock()
+		r.draining = false
+		w.gateMu.Unlock()
+		return 0, false
+	}
 	if !gated {
 		return 0, false
 	}
 	for {
 		cmd := <-r.gate
 		if cmd < 0 {
+			w.gateMu.Lock()
+			r.draining = true
+			w.gateMu.Unlock()
+			for arm := 0; arm < len(cases); arm++ {
+				if vsel.Take(cases, arm) {
+					return arm, true
+				}
+			}
+			w.gateMu.Lock()
+			r.draining = false
+			w.gateMu.Unlock()
 			return 0, false
 		}
 		if vsel.Take(cases, cmd) {
